@@ -496,16 +496,19 @@ class AlignmentCollector:
                     coverage_dict[pos] > max(AlignmentCollector.ABS_COV_VALLEY, max_cov * AlignmentCollector.REL_COV_VALLEY):
                 max_cov = max(max_cov, coverage_dict[pos])
                 pos += 1
-            split_regions.append((max(current_start * AbstractAlignmentStorage.COVERAGE_BIN + 1, genomic_region[0]),
-                                  min(pos * AbstractAlignmentStorage.COVERAGE_BIN, genomic_region[1])))
+            # the first region starts where the cluster starts: positions are 0-based, bin b begins at position b * COVERAGE_BIN
+            region_start = genomic_region[0] if not split_regions else \
+                max(current_start * AbstractAlignmentStorage.COVERAGE_BIN + 1, genomic_region[0])
+            split_regions.append((region_start, min(pos * AbstractAlignmentStorage.COVERAGE_BIN, genomic_region[1])))
             current_start = pos
             max_cov = coverage_dict[current_start]
             pos = min(current_start + 1, coverage_positions[-1] + 1)
 
         if not split_regions or split_regions[-1][1] < genomic_region[1]:
             # the scan stopped on the last covered bin (or there is a single bin): add the remaining part
-            split_regions.append((max(current_start * AbstractAlignmentStorage.COVERAGE_BIN + 1, genomic_region[0]),
-                                  genomic_region[1]))
+            region_start = genomic_region[0] if not split_regions else \
+                max(current_start * AbstractAlignmentStorage.COVERAGE_BIN + 1, genomic_region[0])
+            split_regions.append((region_start, genomic_region[1]))
 
         return split_regions
 
